@@ -445,6 +445,10 @@ impl<'l> StringTokenizer<'l> {
                         working.push(next);
                         self.scanner.next();
                     }
+                    'a'..='f' | 'A'..='F' if base == 16 => {
+                        working.push(next);
+                        self.scanner.next();
+                    }
                     'e' | 'E' | '.' => {
                         if next == '.' && is_float {
                             break 'outer;
